@@ -411,6 +411,7 @@ func ruleOBS5(c *Ctx) []Obligation {
 			_ = st
 			fd := c.funcDecl(setName)
 			info := p.TypesInfo
+			var resetPos token.Pos
 			ast.Inspect(fd.Body, func(nd ast.Node) bool {
 				as, ok := nd.(*ast.AssignStmt)
 				if !ok || len(as.Lhs) != 1 || len(as.Rhs) != 1 {
@@ -419,12 +420,38 @@ func ruleOBS5(c *Ctx) []Obligation {
 				if se, ok := unparen(as.Lhs[0]).(*ast.SelectorExpr); ok && se.Sel.Name == idField {
 					if tv, ok := info.Types[as.Rhs[0]]; ok && tv.Value != nil && tv.Value.String() == "0" {
 						o.Verdict, o.Detail = OK, idField+" = 0"
+						resetPos = as.Pos()
 					}
 				}
 				return true
 			})
 			if o.Verdict == VIOL {
 				o.Detail = fmt.Sprintf("SetName does not reset %s: a value that was unnamed and numbered, then named, then unnamed again keeps a stale number", idField)
+			}
+			// the reset happens on every path: it is a top-level statement and no return precedes it
+			if o.Verdict == OK {
+				top := false
+				for _, st := range fd.Body.List {
+					if st.Pos() == resetPos {
+						top = true
+						break
+					}
+					early := false
+					ast.Inspect(st, func(m ast.Node) bool {
+						if _, ok := m.(*ast.ReturnStmt); ok {
+							early = true
+						}
+						return true
+					})
+					if early {
+						o.Verdict, o.Pos = VIOL, c.pos(st.Pos())
+						o.Detail = fmt.Sprintf("SetName can return before %s is reset: SetName(\"\") on a value that is already unnamed no longer hands it back to automatic numbering, so after an earlier print the stale number survives an edit and the next print fails or differs", idField)
+						break
+					}
+				}
+				if o.Verdict == OK && !top {
+					o.Verdict, o.Detail = VIOL, fmt.Sprintf("%s is reset only conditionally in SetName", idField)
+				}
 			}
 			obs = append(obs, o)
 		}
